@@ -46,6 +46,7 @@ type world struct {
 	fams    []family
 	p       params
 	child   *job // non-nil in a worker process
+	onResult func(*result) // parent: called with every worker result of the current phase
 }
 
 func (w *world) lap(what string) {
@@ -213,39 +214,56 @@ func main() {
 	r.Finish()
 }
 
+// compileAll compiles every data file for both key layouts with the real
+// compiler and dumps the result twice (dnsfix.DumpRDB = the oracle's reference,
+// and the harness' own order-preserving dump, which must agree with it). The
+// work is spread over worker processes like every other phase.
 func (w *world) compileAll() {
 	n := len(w.states)
 	w.comp = make([][]*compiled, len(layouts))
 	for li := range layouts {
 		w.comp[li] = make([]*compiled, n)
 	}
-	errs := make([]string, len(layouts)*n)
-	vlib.ParallelFor(len(layouts)*n, func(i int) {
-		li, si := i/n, i%n
-		dir, err := dnsfix.Compile(w.scratch, layouts[li], w.states[si].preText)
-		if err != nil {
-			errs[i] = fmt.Sprintf("compile %s %s: %v", layouts[li], w.states[si].name, err)
-			return
+	w.onResult = func(res *result) {
+		for _, c := range res.Comp {
+			w.comp[c.Li][c.Si] = &compiled{dir: c.Dir, ref: c.Ref, raw: c.Raw, rawID: c.Raw.id()}
 		}
+	}
+	w.run("compile", len(layouts)*n, nil, nil, nil, func(i int) {
+		li, si := i/n, i%n
+		// dnsfix.Compile numbers its directories per process: compile in a directory private to this worker,
+		// then give the store a name that is unique in the shared scratch
+		dir, err := dnsfix.Compile(filepath.Join(w.scratch, "compile-"+dirPrefix), layouts[li], w.states[si].preText)
+		if err != nil {
+			vlib.Infra("compile %s %s: %v", layouts[li], w.states[si].name, err)
+		}
+		uniq := filepath.Join(w.scratch, fmt.Sprintf("comp-%d-%d.rdb", li, si))
+		if err := os.Rename(dir, uniq); err != nil {
+			vlib.Infra("rename %s: %v", dir, err)
+		}
+		dir = uniq
 		ref, err := dnsfix.DumpRDB(dir)
 		if err != nil {
-			errs[i] = fmt.Sprintf("dump %s %s: %v", layouts[li], w.states[si].name, err)
-			return
+			vlib.Infra("dump %s %s: %v", layouts[li], w.states[si].name, err)
 		}
 		raw, err := dumpRaw(dir)
 		if err != nil {
-			errs[i] = fmt.Sprintf("raw dump %s %s: %v", layouts[li], w.states[si].name, err)
-			return
+			vlib.Infra("raw dump %s %s: %v", layouts[li], w.states[si].name, err)
 		}
 		if d := raw.canon().Diff(ref); d != "" {
-			errs[i] = fmt.Sprintf("harness dump disagrees with dnsfix.DumpRDB on %s %s: %s", layouts[li], w.states[si].name, d)
-			return
+			vlib.Infra("harness dump disagrees with dnsfix.DumpRDB on %s %s: %s", layouts[li], w.states[si].name, d)
 		}
 		w.comp[li][si] = &compiled{dir: dir, ref: ref, raw: raw, rawID: raw.id()}
 	})
-	for _, e := range errs {
-		if e != "" {
-			vlib.Infra("%s", e)
+	w.onResult = nil
+	if w.child != nil {
+		return // a worker has only its share
+	}
+	for li := range layouts {
+		for si, c := range w.comp[li] {
+			if c == nil {
+				vlib.Infra("no compile result for %s %s", layouts[li], w.states[si].name)
+			}
 		}
 	}
 }
